@@ -101,7 +101,20 @@ Definition entitled (s : state) (o : out) : Prop :=
     match top with
     | TMe u => user = u /\ exists m, get_me s u = Some m /\ In sid (me_sess m)
     | t => exists x, get_top s t = Some x /\ In (sid, user) (t_sess x) /\
-                     (exempt w = false -> is_presencer (p_mode (get_pud x user)) = true)
+                     (is_info w = false -> exempt w = false -> is_presencer (p_mode (get_pud x user)) = true)
+    end
+  | _ => True
+  end.
+
+(* a frame which a p2p/group topic makes from a {note} of one of its own sessions: an {info} for an attached
+   session of a user whose mode has R *)
+Definition entitled_note (s : state) (o : out) : Prop :=
+  match o with
+  | Frame sid user top src w =>
+    is_info w = true /\
+    match top with
+    | TMe _ => False
+    | t => exists x, get_top s t = Some x /\ In (sid, user) (t_sess x) /\ is_reader (p_mode (get_pud x user)) = true
     end
   | _ => True
   end.
@@ -126,7 +139,31 @@ Proof.
   destruct Ho as [<- | []]. simpl.
   match goal with H : negb (passes_presence_filters _ _ _) = false |- _ => apply negb_false_iff in H; rename H into HP end.
   destruct t; try contradiction; (exists x; split; [auto|split; [auto|]]);
-    intros E; eapply passes_filters_presencer; eauto.
+    intros _ E; eapply passes_filters_presencer; eauto.
+Qed.
+
+Lemma bcast_top_info_routed_entitled s0 s t x g :
+  (match t with TMe _ => False | _ => True end) -> is_info (m_what g) = true ->
+  get_top s t = Some x -> Forall (entitled s) (bcast_top_info_routed s0 t x g).
+Proof.
+  intros Ht Hi Hx. unfold bcast_top_info_routed. rewrite Forall_forall. intros o Ho.
+  apply in_flat_map in Ho as [[sid uid] [Hin Ho]].
+  repeat match type of Ho with
+         | In _ (if ?c then _ else _) => destruct c eqn:?; [contradiction|]
+         end.
+  destruct Ho as [<- | []]. simpl.
+  destruct t; try contradiction; (exists x; split; [auto|split; [auto|]]); intros E; rewrite Hi in E; discriminate.
+Qed.
+
+Lemma bcast_me_info_entitled s0 s u m g :
+  get_me s u = Some m -> Forall (entitled s) (bcast_me_info s0 u m g).
+Proof.
+  intros Hm. unfold bcast_me_info. rewrite Forall_forall. intros o Ho.
+  apply in_flat_map in Ho as [sid [Hin Ho]].
+  repeat match type of Ho with
+         | In _ (if ?c then _ else _) => destruct c eqn:?; [contradiction|]
+         end.
+  destruct Ho as [<- | []]. simpl. split; auto. exists m. split; auto.
 Qed.
 
 Lemma bcast_me_entitled s0 s u m m0 g w :
@@ -149,6 +186,7 @@ Lemma deliver_entitled s g : Forall (entitled s) (snd (deliver_msg s g)).
 Proof.
   unfold deliver_msg. destruct (m_dst g) eqn:D.
   - destruct (get_me s u) eqn:M; simpl; [|constructor].
+    destruct (is_info (m_what g)) eqn:II; [simpl; eapply bcast_me_info_entitled; eauto|simpl].
     repeat match goal with
            | |- Forall _ (match ?x with _ => _ end) => destruct x eqn:?
            | |- Forall _ (if ?x then _ else _) => destruct x eqn:?
@@ -156,6 +194,7 @@ Proof.
     all: eapply bcast_me_entitled; eauto.
   - destruct (get_top s (TP2P a b)) eqn:X; simpl; [|constructor].
     destruct (t_loaded t); simpl; [|constructor].
+    destruct (is_info (m_what g)) eqn:II; [simpl; eapply bcast_top_info_routed_entitled; eauto; exact I|simpl].
     repeat match goal with
            | |- Forall _ (match ?x with _ => _ end) => destruct x eqn:?
            | |- Forall _ (if ?x then _ else _) => destruct x eqn:?
@@ -163,6 +202,7 @@ Proof.
     all: eapply bcast_top_entitled; eauto; exact I.
   - destruct (get_top s (TGrp g0)) eqn:X; simpl; [|constructor].
     destruct (t_loaded t); simpl; [|constructor].
+    destruct (is_info (m_what g)) eqn:II; [simpl; eapply bcast_top_info_routed_entitled; eauto; exact I|simpl].
     repeat match goal with
            | |- Forall _ (match ?x with _ => _ end) => destruct x eqn:?
            | |- Forall _ (if ?x then _ else _) => destruct x eqn:?
@@ -193,12 +233,52 @@ Lemma nf_unsub s sid u t : no_frames (snd (unsub_op s sid u t)).
 Proof. unfold unsub_op. nf. Qed.
 Lemma nf_pub s sid u t : no_frames (snd (pub_op s sid u t)).
 Proof. unfold pub_op. nf. Qed.
+Lemma nf_delmsg s sid u t h : no_frames (snd (delmsg_op s sid u t h)).
+Proof. unfold delmsg_op. nf. Qed.
+
+Lemma p_mode_set_marks a b c d p : p_mode (p_set_marks a b c d p) = p_mode p.
+Proof. reflexivity. Qed.
+
+(* the frames of a {note}: attached sessions of readers, evaluated in the state right after the note *)
+Lemma note_entitled s sid u t w seq :
+  (match t with TMe _ => False | _ => True end) ->
+  Forall (entitled_note (fst (note_op s sid u t w seq))) (snd (note_op s sid u t w seq)).
+Proof.
+  intros Ht. unfold note_op.
+  repeat match goal with
+         | |- Forall _ (snd (if ?c then _ else _)) => destruct c eqn:?; [simpl; repeat constructor|]
+         end.
+  destruct (get_top s t) as [x|] eqn:G; [|repeat constructor].
+  repeat match goal with
+         | |- Forall _ (snd (if ?c then _ else _)) => destruct c eqn:?; [simpl; repeat constructor|]
+         | |- Forall (entitled_note (fst (if ?c then _ else _))) _ => destruct c eqn:?; [simpl; repeat constructor|]
+         end.
+  cbn [fst snd].
+  match goal with |- Forall _ (bcast_top_info t ?y u sid w) => set (x1 := y) end.
+  assert (G1 : forall ms, get_top (send ms (put_top t x1 s)) t = Some x1).
+  { intros ms. unfold get_top, send, put_top. simpl. apply (aget_aset_same tname_eqb tname_eqb_eq). }
+  assert (Hw : is_info w = true).
+  { destruct w; try reflexivity; discriminate. }
+  unfold bcast_top_info. rewrite Forall_forall. intros o Ho.
+  apply in_flat_map in Ho as [[sid' uid] [Hin Ho]].
+  repeat match type of Ho with
+         | In _ (if ?c then _ else _) => destruct c eqn:?; [contradiction|]
+         end.
+  destruct Ho as [<- | []]. simpl. split; [exact Hw|].
+  match goal with H : negb (is_reader _) = false |- _ => apply negb_false_iff in H; rename H into HR end.
+  assert (Hs : In (sid', uid) (t_sess x1)) by exact Hin.
+  destruct t; try contradiction; (exists x1; split; [apply G1|split; [exact Hs|exact HR]]).
+Qed.
+
+Lemma resolve_not_me u r : r <> RMe -> match resolve u r with TMe _ => False | _ => True end.
+Proof. destruct r; simpl; try congruence; intros _; [unfold p2p_name; destruct (u <? v)|]; exact I. Qed.
 
 Lemma step_entitled_gen rep s o :
   match o with
   | Deliver i => match take_nth i [] (s_net s) with
                  | Some (g, rest) => Forall (entitled (set_net (fun _ => rest) s)) (snd (step_gen rep s o))
                  | None => no_frames (snd (step_gen rep s o)) end
+  | Note _ _ _ _ _ => Forall (entitled_note (fst (step_gen rep s o))) (snd (step_gen rep s o))
   | _ => no_frames (snd (step_gen rep s o))
   end.
 Proof.
@@ -213,6 +293,9 @@ Proof.
   - destruct (sess_user s sid); [|nf]. destruct r; [nf| |]; (destruct (n =? v); [apply nf_want|apply nf_given]).
   - destruct (sess_user s sid); [|nf]. destruct r; [nf|apply nf_evict|apply nf_evict].
   - destruct (sess_user s sid); [|nf]. destruct r; [nf|apply nf_pub|apply nf_pub].
+  - match goal with |- Forall _ (snd (if ?c then _ else _)) => destruct c; [simpl; repeat constructor|] end.
+    destruct r; [simpl; repeat constructor| |]; apply note_entitled; apply resolve_not_me; discriminate.
+  - destruct (sess_user s sid); [|nf]. destruct r; [nf|apply nf_delmsg|apply nf_delmsg].
   - nf.
   - nf.
   - nf.
@@ -431,6 +514,7 @@ Definition entitled_at (s : state) (o : op) (f : out) : Prop :=
                  | Some (g, rest) => entitled (set_net (fun _ => rest) s) f
                  | None => match f with Frame _ _ _ _ _ => False | _ => True end
                  end
+  | Note _ _ _ _ _ => entitled_note (fst (step s o)) f
   | _ => match f with Frame _ _ _ _ _ => False | _ => True end
   end.
 
@@ -480,7 +564,7 @@ Lemma mem_evict x uid unsub : mem_ok x -> mem_ok (fst (evict_user x uid unsub)).
 Proof.
   intros H. unfold evict_user. destruct (cached x uid) eqn:C; simpl; intros e He; simpl in He;
     apply filter_In in He as [He Hne]; apply negb_true_iff in Hne.
-  - change (cached (set_pud uid (mkPud (p_want (get_pud x uid)) (p_given (get_pud x uid)) 0 unsub) x) (snd e) = true).
+  - change (cached (set_pud uid (p_set_deleted 0 unsub (get_pud x uid)) x) (snd e) = true).
     rewrite cached_set_pud, Hne. apply (H e He).
   - apply (H e He).
 Qed.
@@ -553,7 +637,7 @@ Proof.
   destruct (get_top s (p2p_name u v)) as [x0|] eqn:G.
   - pose proof (mem_loaded_or x0 (tops_get _ _ _ H G)) as Hx.
     set (x := if t_loaded x0 then x0 else load_top x0) in *. clearbody x.
-    brk; auto. apply tops_put; auto. apply mem_attach_set; auto.
+    brk; auto; try apply tops_send; apply tops_put; auto; apply mem_attach_set; auto.
     simpl. apply cached_get_pud_deleted. now apply negb_false_iff.
   - simpl. apply tops_send, tops_put; auto. intros e [<- | []]. simpl. unfold cached. simpl. now rewrite N.eqb_refl.
 Qed.
@@ -600,12 +684,41 @@ Lemma tops_unsub s sid u t : tops_ok s -> tops_ok (fst (unsub_op s sid u t)).
 Proof.
   intros H. unfold unsub_op. destruct (get_top s t) as [x|] eqn:G; [|exact H].
   pose proof (tops_get _ _ _ H G) as Hx.
-  brk; auto. apply tops_send, tops_put; auto. now apply mem_evict.
+  brk; auto; apply tops_send;
+    first [apply tops_put; auto; now apply mem_evict | unfold tops_ok; simpl; now apply adel_forall].
 Qed.
+
+Lemma mem_set_lastid z x : mem_ok x -> mem_ok (set_lastid z x).
+Proof. intros H e He. apply (H e He). Qed.
+
+Lemma mem_marks x u a b c d : mem_ok x -> mem_ok (set_pud u (p_set_marks a b c d (get_pud x u)) x).
+Proof. intros H. apply mem_set_pud; auto. simpl. apply cached_get_pud_deleted. Qed.
 
 Lemma tops_pub s sid u t : tops_ok s -> tops_ok (fst (pub_op s sid u t)).
 Proof.
-  intros H. unfold pub_op. destruct (get_top s t) as [x|] eqn:G; [|exact H]. brk; auto.
+  intros H. unfold pub_op. destruct (get_top s t) as [x|] eqn:G; [|exact H].
+  pose proof (tops_get _ _ _ H G) as Hx.
+  brk; auto. apply tops_send, tops_put; auto.
+  destruct (found t x u); [|now apply mem_set_lastid].
+  apply mem_set_pud; [now apply mem_set_lastid|]. intros C.
+  destruct (is_reader _); simpl; apply cached_get_pud_deleted; exact C.
+Qed.
+
+Lemma tops_note s sid u t w seq : tops_ok s -> tops_ok (fst (note_op s sid u t w seq)).
+Proof.
+  intros H. unfold note_op.
+  destruct (negb (sess_on s sid t) && negb (what_eqb w WIRecv)); [exact H|].
+  match goal with |- tops_ok (fst (if ?c then _ else _)) => destruct c; [exact H|] end.
+  destruct (get_top s t) as [x|] eqn:G; [|exact H].
+  pose proof (tops_get _ _ _ H G) as Hx.
+  brk; auto; apply tops_send, tops_put; auto.
+  all: destruct w; auto; apply mem_set_pud; auto; intros C; simpl;
+    (destruct (found t x u); [now apply cached_get_pud_deleted | reflexivity]).
+Qed.
+
+Lemma tops_delmsg s sid u t h : tops_ok s -> tops_ok (fst (delmsg_op s sid u t h)).
+Proof.
+  intros H. unfold delmsg_op. destruct (get_top s t) as [x|] eqn:G; [|exact H]. brk; auto.
 Qed.
 
 Lemma tops_put_me u m s : tops_ok s -> tops_ok (put_me u m s).
@@ -668,9 +781,11 @@ Qed.
 Lemma tops_deliver s g : tops_ok s -> tops_ok (fst (deliver_msg s g)).
 Proof.
   intros H. unfold deliver_msg. destruct (m_dst g).
-  - destruct (get_me s u); [|exact H]. simpl. destruct (r_reply _); exact H.
-  - destruct (get_top s (TP2P a b)); [|exact H]. destruct (negb (t_loaded t)); [exact H|]. simpl. destruct (r_reply _); exact H.
-  - destruct (get_top s (TGrp g0)); [|exact H]. destruct (negb (t_loaded t)); [exact H|]. simpl. destruct (r_reply _); exact H.
+  - destruct (get_me s u); [|exact H]. destruct (is_info _); [exact H|]. simpl. destruct (r_reply _); exact H.
+  - destruct (get_top s (TP2P a b)); [|exact H]. destruct (negb (t_loaded t)); [exact H|].
+    destruct (is_info _); [exact H|]. simpl. destruct (r_reply _); exact H.
+  - destruct (get_top s (TGrp g0)); [|exact H]. destruct (negb (t_loaded t)); [exact H|].
+    destruct (is_info _); [exact H|]. simpl. destruct (r_reply _); exact H.
 Qed.
 
 Lemma tops_step rep s o : tops_ok s -> tops_ok (fst (step_gen rep s o)).
@@ -694,6 +809,9 @@ Proof.
       (destruct (n =? v); [now apply tops_want | now apply tops_given]).
   - destruct (sess_user s sid); [|exact H]. destruct r; [exact H| |]; now apply tops_evict.
   - destruct (sess_user s sid); [|exact H]. destruct r; [exact H| |]; now apply tops_pub.
+  - match goal with |- tops_ok (fst (if ?c then _ else _)) => destruct c; [exact H|] end.
+    destruct r; [exact H| |]; now apply tops_note.
+  - destruct (sess_user s sid); [|exact H]. destruct r; [exact H| |]; now apply tops_delmsg.
   - destruct (idle s t); [|exact H]. simpl. apply tops_send. now apply tops_drop.
   - destruct (idle s t); [|exact H]. simpl. now apply tops_drop.
   - destruct (aget tname_eqb t (s_zomb s)); exact H.
@@ -720,7 +838,7 @@ Lemma no_leak_reach s i g rest sid user top src w :
   match top with
   | TMe u => user = u
   | t => exists x, get_top s t = Some x /\ In (sid, user) (t_sess x) /\ cached x user = true /\
-                   (exempt w = false -> is_presencer (p_mode (get_pud x user)) = true)
+                   (is_info w = false -> exempt w = false -> is_presencer (p_mode (get_pud x user)) = true)
   end.
 Proof.
   intros R T Hin. pose proof (no_leak_all s (Deliver i)) as A. rewrite Forall_forall in A.
